@@ -10,6 +10,8 @@ import (
 	"time"
 )
 
+var noEvidence bool
+
 func env(k, d string) string {
 	if v := os.Getenv(k); v != "" {
 		return v
@@ -21,6 +23,7 @@ func main() {
 	repo := flag.String("repo", env("GVC_REPO", "/repo"), "repository root")
 	verif := flag.String("verif", env("GVC_VERIF", "/verif"), "verif root")
 	keep := flag.String("keep", "", "directory to keep SMT scripts in")
+	flag.BoolVar(&noEvidence, "noevidence", false, "do not write evidence/replay files under verif (used by selftest)")
 	flag.Parse()
 	args := flag.Args()
 	if len(args) == 0 {
